@@ -250,9 +250,9 @@ def to_events(exe):
                     objs.append(mgr["udict"])
                     vals.append(int(v))
             evs.append({"e": "Audit", "objs": objs, "vals": vals})
-        elif t[0] in ("uref", "ubuf", "udict", "mem") and len(t) >= 3:
+        elif t[0] in ("uref", "ubuf", "udict", "mem", "blk", "pump") and len(t) >= 3:
             if t[1] == "alloc":
-                evs.append({"e": "Alloc", "o": t[2], "k": t[0]})
+                evs.append({"e": "Alloc", "o": t[2], "k": {"blk": "blocker"}.get(t[0], t[0])})
             elif t[1] == "free":
                 evs.append({"e": "Free", "o": t[2] if t[2] != "UNKNOWN" else "?"})
             else:
@@ -322,6 +322,7 @@ def validate_parallel(ctx, exes, tag, jobs=3):
 
 # ---------------------------------------------------------------- keys, shrinking
 NORM = {"out": "set_output", "setfd": "set_flow_def", "usetfd": "set_flow_def", "in": "input", "uin": "input",
+        "inp": "input(pump)",
         "outself": "set_output(get_output)", "fdself": "set_flow_def(get_flow_def)",
         "flush": "flush", "rel": "release", "sub": "alloc_sub", "reg": "register_request",
         "unreg": "unregister_request", "opt": "option"}
@@ -441,6 +442,8 @@ def well_formed(cmds):
     for c in cmds:
         t = c.split()
         k = t[0]
+        if k == "reqmode" and stall and len(t) > 2 and t[2] != "hold":
+            return False              # with a self-holding pipe every sink must be able to answer
         if k == "who":
             need_who.discard(t[1])
         elif need_who and any(x in need_who for x in t[1:]):
@@ -473,7 +476,7 @@ def well_formed(cmds):
             sinks.add(t[1])
         if k in ("setfd", "usetfd"):
             fdset.add(t[1])
-        if k in ("in", "uin") and t[1] not in sinks and t[1] not in fdset:
+        if k in ("in", "uin", "inp") and t[1] not in sinks and t[1] not in fdset:
             return False              # buffers only after a flow definition
         if k == "reg":
             if regs.get(t[2]) is not None:
@@ -485,7 +488,21 @@ def well_formed(cmds):
             regs[t[2]] = None
         if k == "rel" and t[1] in regs.values():
             return False              # unregister before releasing the pipe
-        if k in ("new", "cnew", "sink", "ualloc", "ufd", "req"):
+        if k == "pump":
+            if t[1] in live:
+                return False
+            live.add(t[1])
+        elif k in ("pstart", "pstop", "pstate"):
+            if t[1] not in live:
+                return False
+        elif k == "pfree":
+            if t[1] not in live:
+                return False
+            live.discard(t[1])
+        elif k == "inp":
+            if t[1] not in live or t[2] not in live:
+                return False
+        elif k in ("new", "cnew", "sink", "ualloc", "ufd", "req"):
             if t[1] in live:
                 return False
             if k == "cnew" and len(t) > 3 and t[2] == "qsink" and t[3] not in live:
@@ -1005,9 +1022,14 @@ def epilogue_for(body):
     application still owns, flush and release every handle in creation
     order, run the loop and the clock, release the managers."""
     held, kind, outof, reqs, urefs, ubufs = [], {}, {}, {}, [], []
+    pumps = []
     for c in body:
         t = c.split()
         k = t[0]
+        if k == "pump":
+            pumps.append(t[1])
+        elif k == "pfree" and t[1] in pumps:
+            pumps.remove(t[1])
         if k in ("new", "cnew"):
             held.append(t[1])
             kind[t[1]] = t[2]
@@ -1066,11 +1088,19 @@ def epilogue_for(body):
         if reqs[r] is not None:
             ep.append("unreg %s %s" % (reqs[r], r))
     ep += ["ufree %s" % n for n in urefs] + ["bfree %s" % b for b in ubufs]
+    # the application's source pumps are freed before the pipes they fed (the blockers' call-backs run into
+    # live pipes) or after them (nothing of a dead pipe may be left on a pump), depending on the script
+    pumps_first = len(body) % 2 == 1
+    if pumps_first:
+        ep += ["pfree %s" % w for w in pumps]
     for n in held:
         if kind[n] != "sink":
             ep.append("flush %s" % n)
         ep.append("rel %s" % n)
-    ep += ["rel se", "loop", "advance 2700000000", "loop"]
+    ep += ["rel se", "loop"]
+    if not pumps_first:
+        ep += ["pfree %s" % w for w in pumps]
+    ep += ["advance 2700000000", "loop"]
     ep += ["reqclean %s" % r for r in sorted(reqs)]
     ep += ["rcs", "teardown"]
     return ep
@@ -1204,7 +1234,9 @@ def gen_random(rng, info, quick):
     for i in range(1 + rng.below(2)):
         n = "s%d" % i
         cmds += ["sink %s%s" % (n, " reject" if rng.chance(1, 8) else ""), "who %s" % n]
-        if rng.chance(1, 5):
+        if rng.chance(1, 5) and not any(t in STALL_TYPES for t in held.values()):
+            # (a sink that throws or refuses requests can never answer them: a pipe that keeps itself alive while
+            # it waits for an answer would stay alive by design)
             cmds.append("reqmode %s %s" % (n, rng.choice(["throw", "refuse"])))
         sinks.append(n)
         held[n] = "sink"
@@ -1220,6 +1252,13 @@ def gen_random(rng, info, quick):
     nrelsink = 0
     nreact = 0
     maybe_gone = []    # handles a reaction may have released (the epilogue releases them again: harmless)
+    # source pumps of the application: buffers handed over with a pump the pipe may block while it holds them
+    pumps = []
+    if rng.chance(1, 2):
+        for i in range(1 + rng.below(2)):
+            cmds.append("pump w%d" % i)
+            pumps.append("w%d" % i)
+    npump = len(pumps)
 
     def can_input():
         return [n for n in held if held[n] == "sink" or
@@ -1254,7 +1293,10 @@ def gen_random(rng, info, quick):
             tgt = sorted(can_input())
             if tgt:
                 p = rng.choice(tgt)
-                cmds.append("in %s %d %d%s" % (p, bid, rng.choice(sizes), " 2" if rng.chance(1, 4) else ""))
+                if pumps and rng.chance(2, 3):
+                    cmds.append("inp %s %s %d %d" % (p, rng.choice(pumps), bid, rng.choice(sizes)))
+                else:
+                    cmds.append("in %s %d %d%s" % (p, bid, rng.choice(sizes), " 2" if rng.chance(1, 4) else ""))
                 bid += 1
         elif k < 53 and hp:
             cmds.append("flush %s" % rng.choice(hp))
@@ -1303,6 +1345,22 @@ def gen_random(rng, info, quick):
             fd_ok.discard(y)
             outof.pop(y, None)
             maybe_gone.append(y)
+        elif k < 74 and pumps and rng.chance(1, 2):
+            w = rng.choice(pumps)
+            a = rng.below(8)
+            if a < 3:
+                cmds.append("pstart %s" % w)
+            elif a < 4:
+                cmds.append("pstop %s" % w)
+            elif a < 6:
+                cmds.append("pstate %s" % w)
+            elif a < 7:
+                cmds.append("pfree %s" % w)
+                pumps.remove(w)
+            elif npump < 3:
+                cmds.append("pump w%d" % npump)
+                pumps.append("w%d" % npump)
+                npump += 1
         elif k < 75:
             cmds.append("loop")
         elif k < 77:
@@ -1437,6 +1495,23 @@ def directed():
     e = Exe(body + epilogue_for(body), "directed reaction: sibling released on new_flow_def", 2)
     e.nbody = len(body)
     out.append(e)
+    # buffers handed over with a source pump that the pipe blocks while it holds them: stalled queue sink,
+    # flushed or released while blocked; the pump is freed after the pipe (nothing of a dead pipe may be left
+    # on it) or before it (the blockers' call-backs run into the live pipe)
+    for flush in (True, False):
+        for pump_last in (True, False):
+            body = ["cnew p0 qsrc 1", "who p0", "cnew p1 qsink p0", "who p1", "pump w0", "pump w1", "setfd p1 bA",
+                    "inp p1 w0 1 8", "inp p1 w0 2 8", "inp p1 w1 3 8", "pstate w0"]
+            if flush:
+                body += ["flush p1", "pstate w0", "loop"]
+            if pump_last:
+                body += ["rel p1", "rel p0", "loop", "pfree w0", "pfree w1", "rcs"]
+            else:
+                body += ["pfree w0", "inp p1 w1 4 8", "rel p1", "pfree w1", "rcs"]
+            e = Exe(body + epilogue_for(body), "directed blocked source pumps (qsink%s, pumps freed %s)"
+                    % (", flush" if flush else "", "last" if pump_last else "first"), 0)
+            e.nbody = len(body)
+            out.append(e)
     body = ["cnew p1 stream_switcher", "who p1", "sub q0 p1", "who q0", "rel p1", "setfd q0 bA", "rcs"]
     e = Exe(body + epilogue_for(body), "directed sub-pipe controls its released super pipe", 0)
     e.nbody = len(body)
